@@ -151,13 +151,14 @@ def _run(kind, lname, P, S, extra):
         got = fn(tuple(0.0 for _ in tapes))
         return _flat(got), expected_vjp(J, dy, dims, P)
     if kind == "vjp shot vector":
-        tape = make_tape(dims, P, shots=(10, 20))
-        Js = (sym_jac(S, dims, P, "J"), sym_jac(S, dims, P, "K"))
-        dys = (sym_dy(S, dims, "dy"), sym_dy(S, dims, "ey"))
+        shots = tuple(extra.get("shots", (10, 20)))
+        tape = make_tape(dims, P, shots=shots)
+        Js = tuple(sym_jac(S, dims, P, f"J{c}x") for c in range(len(shots)))
+        dys = tuple(sym_dy(S, dims, f"dy{c}x") for c in range(len(shots)))
         tapes, fn = V.vjp(tape, dys, stub_gradient(lambda t: Js))
         got = fn(tuple(0.0 for _ in tapes))
-        e1, e2 = expected_vjp(Js[0], dys[0], dims, P), expected_vjp(Js[1], dys[1], dims, P)
-        return _flat(got), [a + b for a, b in zip(e1, e2)]
+        es = [expected_vjp(J_, d_, dims, P) for J_, d_ in zip(Js, dys)]
+        return _flat(got), [sum(col[1:], col[0]) for col in zip(*es)]
     if kind in ("jvp", "jvp zero tangent"):
         tape = make_tape(dims, P)
         t = np.array([0.0 if kind == "jvp zero tangent" else S.real(f"t{k}") for k in range(P)], dtype=object)
@@ -165,12 +166,16 @@ def _run(kind, lname, P, S, extra):
         got = fn(tuple(0.0 for _ in tapes))
         return _flat(got), expected_jvp(J, list(t), dims, P)
     if kind == "jvp shot vector":
-        tape = make_tape(dims, P, shots=(10, 20))
-        Js = (sym_jac(S, dims, P, "J"), sym_jac(S, dims, P, "K"))
+        shots = tuple(extra.get("shots", (10, 20)))
+        tape = make_tape(dims, P, shots=shots)
+        Js = tuple(sym_jac(S, dims, P, f"J{c}x") for c in range(len(shots)))
         t = np.array([S.real(f"t{k}") for k in range(P)], dtype=object)
         tapes, fn = JV.jvp(tape, t, stub_gradient(lambda tp: Js))
         got = fn(tuple(0.0 for _ in tapes))
-        return _flat(got), expected_jvp(Js[0], list(t), dims, P) + expected_jvp(Js[1], list(t), dims, P)
+        exp = []
+        for J_ in Js:
+            exp += expected_jvp(J_, list(t), dims, P)
+        return _flat(got), exp
     if kind in ("batch_vjp append", "batch_vjp extend", "batch_jvp append"):
         # two tapes with different layouts; the second uses the reversed layout
         dims2 = list(reversed(dims))
@@ -262,11 +267,16 @@ def run(ctx):
             items.append((kind, l, P, {}))
         if len(dims) > 1:
             items.append(("vjp partially zero dy", l, P, {}))
+        if P < 3 or ctx.tier != "quick":
+            # repeated shot counts are stored run-length encoded in Shots.shot_vector: the number of copies is not its length
+            for sh in ((10, 10), (5, 7, 7)):
+                items.append(("vjp shot vector", l, P, {"shots": list(sh)}))
+                items.append(("jvp shot vector", l, P, {"shots": list(sh)}))
     if ctx.only:
         items = [it for it in items if ctx.only in f"{it[0]} [{it[1]}"]
     ctx.shapes = len(items)
     ctx.encode(V.compute_vjp_single, V.compute_vjp_multi, V.vjp, V.batch_vjp, JV.compute_jvp_single, JV.compute_jvp_multi, JV.jvp, JV.batch_jvp)
-    ctx.bound(entries="all real Jacobian / cotangent / tangent entries (symbolic)", layouts=list(LAYOUTS), parameters=NPARAMS, shot_vectors="two shot copies", batches="two tapes with different layouts",
+    ctx.bound(entries="all real Jacobian / cotangent / tangent entries (symbolic)", layouts=list(LAYOUTS), parameters=NPARAMS, shot_vectors="2-3 shot copies, with and without repeated shot counts", batches="two tapes with different layouts",
               outside="classical_jacobian (needs an autodiff framework tracing the QNode's classical pre-processing), tensor-valued (non-scalar) tape parameters, torch/jax/tensorflow interfaces, broadcasting")
     ctx.assume(*sx.SHIM_NOTES, "stub: the gradient transform is replaced by an oracle returning placeholder tapes and an arbitrary symbolic Jacobian in the documented nested layout")
     ctx.rule = "one obligation per (function, measurement layout, number of parameters, path); non-trivial = mentions symbolic entries"
